@@ -147,7 +147,7 @@ func checkC06(c *Ctx) (int, error) {
 				}
 				for _, arch := range c.Levels {
 					cs := &RCase{ID: fmt.Sprintf("C06r-%s-%d-%d@A%d", kind, bits, k, arch), Kind: kind, Arch: arch, Tag: fmt.Sprintf("%s|hdr%05b|L%d", kind, bits, e.Level),
-						Segs: []RSeg{{Stream: RStream{Enc: []EncSpec{e}}, Src: srcWith(RSource{Kind: "bufio", BufSize: 4096}, chunkSchedules[(bits+k)%len(chunkSchedules)]), Reads: readSchedules[(bits+k)%len(readSchedules)], Multi: true, Hdr: kind == "gzip", Dict: dict}}}
+						Segs: []RSeg{{Stream: RStream{Enc: []EncSpec{e}}, Src: srcWith(RSource{Kind: "bufio", BufSize: []int{4096, 16, 24, 32, 64, 4096, 100}[(bits+k+arch)%7]}, chunkSchedules[(bits+k)%len(chunkSchedules)]), Reads: readSchedules[(bits+k)%len(readSchedules)], Multi: true, Hdr: kind == "gzip", Dict: dict}}}
 					rcases = append(rcases, cs)
 				}
 				c.ev.nontrivial(fmt.Sprintf("r|%s|%d|%d", kind, bits, k))
@@ -364,7 +364,23 @@ func checkC08(c *Ctx) (int, error) {
 				e.Hdr.Extra = []byte(fmt.Sprintf("extra field of member %d of file %d", mi, i))
 				e.Hdr.Comment = fmt.Sprintf("comment %d", mi)
 			}
+			switch (i + 2*mi) % 7 {
+			case 3:
+				// an extra field longer than any read buffer in use, Latin-1 strings longer than the small ones
+				e.Hdr.Extra = make([]byte, 5000+rng.Intn(3000))
+				rng.Read(e.Hdr.Extra)
+				e.Hdr.Comment = latin1(rng, 100+rng.Intn(300), true)
+			case 5:
+				e.Hdr.Extra = make([]byte, 60+rng.Intn(200))
+				rng.Read(e.Hdr.Extra)
+				e.Hdr.Name = latin1(rng, 20+rng.Intn(60), true) + ".txt"
+			}
+			// the optional header CRC (no Go writer emits it; readers must verify it) - cannot be added to
+			// a member that is written through Reset of a shared Writer, so those stay without
 			e.Reuse = i%2 == 0 // members written by one Writer through Reset (the usual way to write multi-member files)
+			if !e.Reuse && (i+mi)%3 == 0 {
+				e.FHCRC = true
+			}
 			s.Enc = append(s.Enc, e)
 		}
 		switch f.Trailer {
